@@ -439,6 +439,47 @@ def oracle_c04(ctx, case, res, fail, stats):
             if any(z < lo or z > hi for z in zp):
                 return fail("zero point outside the range of the tensor type: " + where, "zp-range")
             ctx.tag("quantized_tensor")
+        # 1b. ONE tensor, ONE set of statistics: between a producer and a consumer that are both static-range operators under the SAME
+        # activation config (bits, symmetry) the tensor carries the reference parameters of its statistics on both sides, so no inserted
+        # QUANTIZE may map an integer tensor to another integer tensor of the same type there (CONCATENATION legitimately rescales its
+        # inputs to the output's parameters)
+        prod_of = {}
+        for a, b in zip(gi.operators, kept):
+            for x in b.outputs:
+                if x != -1:
+                    prod_of[x] = a
+        for qop in inserted:
+            if pl.BO_NAME.get(mo.operatorCodes[qop.opcodeIndex].builtinCode) != "QUANTIZE" or not len(qop.inputs) or not len(qop.outputs):
+                continue
+            tin, tout = go.tensors[qop.inputs[0]], go.tensors[qop.outputs[0]]
+            if tin.type != tout.type or tin.type not in (TT.INT8, TT.INT16) or qop.inputs[0] not in prod_of:
+                continue
+            pa = prod_of[qop.inputs[0]]
+            pkey = op_key_of(mi.operatorCodes[pa.opcodeIndex].builtinCode)
+            # a producer with a FIXED output range (or one that passes such a range on) hands a symmetric consumer a tensor whose
+            # statistics in force are that range: rescaling to the consumer's symmetry is the library's documented behaviour
+            if pkey is None or pkey in ("SOFTMAX", "LOGISTIC", "TANH") or pkey in SAME_AS_INPUT or same_q(tin, tout):
+                continue
+            pmode, pcfg = mode_of(q, pkey, "".join(pl.tname(gi.tensors[t]) + ";" for t in pa.outputs if t != -1))
+            if pmode != "srq":
+                continue
+            readers = [(a, b) for a, b in zip(gi.operators, kept) if qop.outputs[0] in list(b.inputs)]
+            same = bool(readers)
+            for a, b in readers:
+                rkey = op_key_of(mi.operatorCodes[a.opcodeIndex].builtinCode)
+                if rkey is None or rkey == "CONCATENATION":
+                    same = False
+                    break
+                rmode, rcfg = mode_of(q, rkey, "".join(pl.tname(gi.tensors[t]) + ";" for t in a.outputs if t != -1))
+                if rmode != "srq" or rcfg.activation_tensor_config.num_bits != pcfg.activation_tensor_config.num_bits \
+                        or bool(rcfg.activation_tensor_config.symmetric) != bool(pcfg.activation_tensor_config.symmetric):
+                    same = False
+                    break
+            ctx.tag("requantize_seen")
+            if same:
+                return fail(f"sg{si}: tensor {pl.tname(tin)} is rescaled by an inserted QUANTIZE ({pl.quant_tuple(tin)['scale'][:1]} -> "
+                            f"{pl.quant_tuple(tout)['scale'][:1]}) between two static-range operators under the same activation config: one of the two "
+                            "sides does not carry the reference parameters of the tensor's statistics", "same-config-requantize")
         # 2. op-level rules, per original op as wired in the output graph
         for oi, (a, b) in enumerate(zip(gi.operators, kept)):
             code = mi.operatorCodes[a.opcodeIndex].builtinCode
